@@ -87,7 +87,13 @@ impl MsgLog {
 
 
 #[cfg(not(feature = "verif_native"))]
-pub static mut MSGS: MsgLog = MsgLog { n: 0, msgs: [NOMSG; MAXMSG] };
+pub struct MsgState {
+    magic: u64,
+    pub log: MsgLog,
+}
+/// unique initial bytes: see the note at `VState` in vsup.rs
+#[cfg(not(feature = "verif_native"))]
+pub static mut MSGS: MsgState = MsgState { magic: 0x5645_5249_465F_4D53, log: MsgLog { n: 0, msgs: [NOMSG; MAXMSG] } };
 
 #[cfg(not(feature = "verif_native"))]
 pub fn classify<T>(m: &T) {
@@ -96,14 +102,14 @@ pub fn classify<T>(m: &T) {
     {
         let st: &InputStatType = unsafe { &*(m as *const T as *const InputStatType) };
         unsafe {
-            if MSGS.n < MAXMSG {
-                MSGS.msgs[MSGS.n] = compact(st);
+            if MSGS.log.n < MAXMSG {
+                MSGS.log.msgs[MSGS.log.n] = compact(st);
             }
-            MSGS.n += 1;
+            MSGS.log.n += 1;
         }
         match st {
             InputStatType::Error(_) => record_error_from_formats(),
-            InputStatType::Fatal(_) => unsafe { N_FATAL += 1 },
+            InputStatType::Fatal(_) => unsafe { ST.n_fatal += 1 },
             _ => {}
         }
     }
@@ -112,7 +118,8 @@ pub fn classify<T>(m: &T) {
 #[cfg(not(feature = "verif_native"))]
 pub fn reset_msgs() {
     unsafe {
-        MSGS = MsgLog { n: 0, msgs: [NOMSG; MAXMSG] };
+        MSGS.log.n = 0;
+        MSGS.log.msgs = [NOMSG; MAXMSG];
     }
     reset();
 }
@@ -122,7 +129,7 @@ pub fn reset_msgs() {}
 /// Everything sent on the channel since reset_msgs(): (error/fatal observation, message log)
 #[cfg(not(feature = "verif_native"))]
 pub fn observe(_rx: &flume::Receiver<InputStatType>) -> (Obs, MsgLog) {
-    (snapshot(), unsafe { MSGS })
+    (snapshot(), unsafe { MSGS.log })
 }
 
 #[cfg(feature = "verif_native")]
